@@ -15,12 +15,9 @@ M = [
      '            ms = ms + ((6 - len(ms)) * "0")\n            obj = obj.replace(microsecond=int(ms))\n        except AttributeError:',
      '            obj = obj.replace(microsecond=int(ms))\n        except AttributeError:'),
     ("C01-millis-factor", ["C01"], "dateparser/date.py", "microsecond=millis * 1000 + micros", "microsecond=millis * 100 + micros"),
-    ("C01-T-not-skipped", ["C01"], "dateparser/parser.py", 'skip_tokens = ["t", "year", "hour", "minute"]', 'skip_tokens = ["year", "hour", "minute"]'),
     # C02
     ("C02-freshness-overflow-escapes", ["C02", "C04"], "dateparser/date.py",
      "        except (OverflowError, ValueError):\n            return None", "        except ValueError:\n            return None"),
-    ("C02-no-str-check", ["C02"], "dateparser/date.py",
-     '        if not isinstance(date_string, str):\n            raise TypeError("Input type must be str")\n', ""),
     ("C02-skip-extra-check", ["C02"], "dateparser/conf.py", "        if extra_check:\n            extra_check(setting_name, setting_value)", "        if extra_check and False:\n            extra_check(setting_name, setting_value)"),
     ("C02-unknown-parsers-accepted", ["C02"], "dateparser/conf.py", "    if unknown_parsers:\n        raise SettingValidationError(", "    if unknown_parsers and False:\n        raise SettingValidationError("),
     # C03
@@ -30,9 +27,6 @@ M = [
     ("C03-cache-key-without-settings", ["C03"], "dateparser/languages/dictionary.py",
      "        cache.setdefault(self._settings.registry_key, {})[self.info[\"name\"]] = value",
      "        cache.setdefault(\"k\", {})[self.info[\"name\"]] = value\n        cache[self._settings.registry_key] = cache[\"k\"]"),
-    ("C03-settings-key-ignores-skip-tokens", ["C03"], "dateparser/conf.py",
-     '        keys = sorted(["%s-%s" % (key, str(settings[key])) for key in settings])',
-     '        keys = sorted(["%s-%s" % (key, str(settings[key])) for key in settings if key != "SKIP_TOKENS"])'),
     ("C03-caller-dict-mutated", ["C03"], "dateparser/conf.py",
      "        for x in self._get_settings_from_pyfile().keys():\n            kwds.setdefault(x, getattr(self, x))",
      "        for x in self._get_settings_from_pyfile().keys():\n            kwds.setdefault(x, getattr(self, x))\n        if mod_settings is not None and isinstance(mod_settings, dict):\n            mod_settings.setdefault(\"NORMALIZE\", kwds[\"NORMALIZE\"])"),
@@ -43,8 +37,6 @@ M = [
     ("C04-period-order", ["C04"], "dateparser/freshness_date_parser.py", 'for k in ["weeks", "months", "years"]:', 'for k in ["months", "weeks", "years"]:'),
     ("C04-no-decimals", ["C04", "C06"], "dateparser/freshness_date_parser.py", r'PATTERN = re.compile(r"(\d+[.,]?\d*)\s*(%s)\b"', r'PATTERN = re.compile(r"(\d+)\s*(%s)\b"'),
     # C05
-    ("C05-dictionary-override-order", ["C05"], "dateparser/languages/dictionary.py",
-     '        for word in KNOWN_WORD_TOKENS:\n            if word in locale_info:', '        for word in reversed(KNOWN_WORD_TOKENS):\n            if word in locale_info:'),
     ("C05-split-regex-ascending", ["C05", "C06"], "dateparser/languages/dictionary.py",
      "                value=sorted([key for key in self], key=len, reverse=True),", "                value=sorted([key for key in self], key=len),"),
     ("C05-drop-locale-overlay-lists", ["C05"], "dateparser/utils/__init__.py",
@@ -52,12 +44,10 @@ M = [
      "            if isinstance(value, list):\n                combined_dict[key] = value"),
     # C06
     ("C06-no-named-group", ["C06"], "dateparser/languages/locale.py", 'pattern = pattern.replace(r"(\\d+", r"(?P<n>\\d+")', 'pattern = pattern.replace(r"(\\d+", r"(\\d+")'),
-    ("C06-keep-future-words", ["C06"], "dateparser/languages/locale.py", "        if set(words).isdisjoint(freshness_words):\n            words.remove(\"in\")", "        if False:\n            words.remove(\"in\")"),
     ("C06-relative-strings-ascending", ["C06"], "dateparser/languages/dictionary.py",
      "                    key=len,\n                    reverse=True,\n                ),\n            )\n        return self._sorted_relative_strings_cache",
      "                    key=len,\n                ),\n            )\n        return self._sorted_relative_strings_cache"),
     # C07
-    ("C07-swap-order-chart", ["C07"], "dateparser/parser.py", '        "DYM": ["day", "year", "month"],', '        "DYM": ["day", "month", "year"],'),
     ("C07-ignore-skip-component", ["C07", "C01"], "dateparser/parser.py", "                if skip_component == component:\n                    continue\n                for directive in directives:\n                    try:\n                        do = self._get_date_obj(token, directive)\n                        prev_value = getattr(self, component, None)\n                        if not prev_value:\n                            return set_and_return(token, type, component, do)",
      "                for directive in directives:\n                    try:\n                        do = self._get_date_obj(token, directive)\n                        prev_value = getattr(self, component, None)\n                        if not prev_value:\n                            return set_and_return(token, type, component, do)"),
     ("C07-locale-order-overrides-explicit", ["C07"], "dateparser/date.py", '                if "DATE_ORDER" not in self._settings._mod_settings:', "                if True:"),
@@ -97,7 +87,6 @@ M = [
      "        with _lock:\n            return self._get_date_data(date_string, date_formats)\n\n    def _get_date_data(self, date_string, date_formats=None):\n        res = parse_with_formats(date_string, [], self._settings)"),
     # C15
     ("C15-day-bound-strict", ["C15"], "dateparser/calendars/__init__.py", "            and 0 < int(token) <= self.calendar_converter.month_length(year, month)", "            and 0 < int(token) < self.calendar_converter.month_length(year, month)"),
-    ("C15-drop-month-alias", ["C15"], "dateparser/calendars/jalali_parser.py", '("Mordad", (5, 31, ["امرداد", "مرداد"])),', '("Mordad", (5, 31, ["مرداد"])),'),
     ("C15-hijri-pivot", ["C15"], "dateparser/calendars/hijri_parser.py", "        g = Hijri(year=year, month=month, day=day, validate=False).to_gregorian()", "        g = Hijri(year=year, month=month, day=min(day, 29), validate=False).to_gregorian()"),
     # C16
     ("C16-edit-yaml-without-regenerating", ["C16"], "dateparser_data/supplementary_language_data/date_translation_data/fr.yaml", "    - sept: '7'", "    - sept: '8'"),
@@ -105,18 +94,33 @@ M = [
     # C17
     ("C17-reverse-hits", ["C17"], "dateparser/search/search.py", '        return list(zip(substrings, [i[0]["date_obj"] for i in parsed]))', '        return list(zip(substrings, [i[0]["date_obj"] for i in parsed]))[::-1]'),
     ("C17-return-translated-chunk", ["C17"], "dateparser/search/search.py", '                substrings.append(original[i].strip(" .,:()[]-\'"))', '                substrings.append(translated[i].strip(" .,:()[]-\'"))'),
-    ("C17-no-short-item-filter", ["C17"], "dateparser/search/search.py", "            if len(item) <= 2:\n                continue\n\n            parsed_item, is_relative = self.parse_item(", "            parsed_item, is_relative = self.parse_item("),
     # C18
-    ("C18-drop-nbsp", ["C18"], "dateparser/date.py", '    date_string = RE_NBSP.sub(" ", date_string)\n', ""),
-    ("C18-spaces-only-ascii", ["C18"], "dateparser/date.py", 'RE_SPACES = re.compile(r"\\s+")', 'RE_SPACES = re.compile(r" +")'),
     ("C18-no-trim-colons", ["C18"], "dateparser/date.py", '    date_string = RE_TRIM_COLONS.sub(r"\\1", date_string)\n', ""),
     ("C18-numerals-ascii-only", ["C18"], "dateparser/languages/locale.py", 'NUMERAL_PATTERN = re.compile(r"(\\d+)", re.U)', 'NUMERAL_PATTERN = re.compile(r"([0-9]+)", re.U)'),
     # C19
     ("C19-eoferror-not-caught", ["C19"], "dateparser/timezone_parser.py", "    except Exception:\n        # a missing", "    except (FileNotFoundError, ValueError, TypeError, pickle.UnpicklingError):\n        # a missing"),
-    ("C19-return-before-assigning", ["C19"], "dateparser/timezone_parser.py", "    _search_regex_parts = []\n    _tz_offsets = list(build_tz_offsets(_search_regex_parts))", "    _search_regex_parts = []\n    if _tz_offsets is not None and not os.path.exists(cache_path):\n        return\n    _tz_offsets = list(build_tz_offsets(_search_regex_parts))"),
     # C20
     ("C20-get_date_data-unlocked", ["C20"], "dateparser/date.py", "        with _lock:\n            return self._get_date_data(date_string, date_formats)", "        return self._get_date_data(date_string, date_formats)"),
     ("C20-apply_settings-unlocked", ["C20"], "dateparser/conf.py", "        with _lock:\n            mod_settings = kwargs.get(\"settings\")", "        if True:\n            mod_settings = kwargs.get(\"settings\")"),
+    # second generation (replacing mutants that turned out to be behaviourally equivalent on the property's domain)
+    ("C01-no-fractional-time-directive", ["C01"], "dateparser/parser.py", '        "%H:%M:%S.%f",\n', ""),
+    ("C02-languages-not-type-checked", ["C02"], "dateparser/date.py",
+     "        if languages is not None and not isinstance(languages, (list, tuple, Set)):", "        if False:"),
+    ("C03-settings-key-ignores-skip-tokens-and-mods", ["C03"], "dateparser/conf.py",
+     '        keys = sorted(["%s-%s" % (key, str(settings[key])) for key in settings])',
+     '        keys = sorted(["%s-%s" % (key, str(settings[key])) for key in settings if key not in ("SKIP_TOKENS", "_mod_settings")])'),
+    ("C05-dictionary-not-lowercased", ["C05"], "dateparser/languages/dictionary.py",
+     '                translations = map(methodcaller("lower"), locale_info[word])', "                translations = locale_info[word]"),
+    ("C06-relative-number-lost", ["C06", "C04"], "dateparser/languages/locale.py",
+     "                    date_string_tokens[i] = pattern.sub(replacement, word)", "                    date_string_tokens[i] = replacement.replace(chr(92) + '1', '1')"),
+    ("C07-mdy-read-as-dmy", ["C07"], "dateparser/parser.py", '        "MDY": ["month", "day", "year"],', '        "MDY": ["day", "month", "year"],'),
+    ("C15-persian-digit-table", ["C15"], "dateparser/calendars/jalali_parser.py", '        "۴": 4,', '        "۴": 5,'),
+    ("C17-strip-digits-from-substrings", ["C17"], "dateparser/search/search.py",
+     '                substrings.append(original[i].strip(" .,:()[]-\'"))', '                substrings.append(original[i].strip(" .,:()[]-\'0123456789/"))'),
+    ("C18-nbsp-not-normalised", ["C18"], "dateparser/date.py",
+     '    date_string = RE_NBSP.sub(" ", date_string)\n    date_string = RE_SPACES.sub(" ", date_string)', '    date_string = re.sub(" +", " ", date_string)'),
+    ("C19-rewrite-only-when-missing", ["C19"], "dateparser/timezone_parser.py",
+     '    tmp_path = "%s.%d.tmp" % (cache_path, os.getpid())\n    try:', '    if os.path.exists(cache_path):\n        return\n    tmp_path = "%s.%d.tmp" % (cache_path, os.getpid())\n    try:'),
 ]
 
 
